@@ -180,9 +180,12 @@ CHECKS = {
              "accepts iff line numbers, both lengths (68/69/70 explored) and both checksum characters are right. (c) from_string: "
              "every sequence of up to 4 (quick) / 5 (thorough) lines of kinds {name, line1, line2, comment, blank, corrupted line1} "
              "yields exactly the valid consecutive entries. (d) The real _float runs on the six sign shapes [ +-]DDDDD[+-]D of a "
-             "'decimal point assumed' field (ndotdot/6, B*) with the six digits symbolic: value = +-0.DDDDD x 10^(+-D).",
+             "'decimal point assumed' field (ndotdot/6, B*) with the six digits symbolic: value = +-0.DDDDD x 10^(+-D); the real _unfloat "
+             "runs on a stand-in float whose format(v, '.4e') is the decimal rounding of v (placeholder digits, sign and exponent "
+             "-10..8 per shape, with and without mantissa carry) and its output is read by the real _float: at most 8 columns, value "
+             "back within half a unit of the fifth digit.",
         note="Trusted: z3 (sequence theory for the layout queries); the AST extraction; CPython str.format widths. Compositional "
-             "step: sums of summands that agree column by column agree. Outside: _unfloat and the float -> text -> float round trip of those fields (binary64 / decimal conversion), classification other than U, "
+             "step: sums of summands that agree column by column agree. Outside: binary64 effects in the float -> text conversion of those fields (exact ties; the decimal rounding is what is modelled), classification other than U, "
              "non-canonical encodings of zero or explicit '+' signs.",
         ref="DESIGN.md section 3 C12", technique="AST-derived SMT (z3 strings/LIA) for the column layout; bounded symbolic execution of the real checksum/validity code on symbolic characters; solver-enumerated line-kind sequences for from_string"),
     "C19": dict(
